@@ -22,6 +22,7 @@ HAND_FINGERPRINTS = cg.HAND_FINGERPRINTS
 GOLDEN_FINGERPRINTS = cg.GOLDEN_FINGERPRINTS
 OPS3 = c12.OPS3
 KNOWN_CLASS = 'C13-curve-mode-disconnected'
+SAGITTA_CLASS = 'C13-straight-edge-sagitta'
 
 
 # ------------------------------------------------------------------------------------------------ correspondence
@@ -462,7 +463,17 @@ def check_first_sentence(A, B, m, seed2):
                     if oa.within(q, lim) or ob.within(q, lim): continue
                     d = min(oa.dist(q), ob.dist(q))
                     meas['max_dist'] = max(meas['max_dist'], d)
-                    fails.append(('C13-distance', f'{op}: point {q} of segment {i} ({type(s).__name__}) of result path {k} is {d:.4f} from the nearest input '
+                    cls = 'C13-distance'
+                    if rc >= 10 and len(sp) == 2:
+                        # known finding C13-straight-edge-sagitta: clip flattens with flatten(2), whose regular samples land on the 1-unit grid of the
+                        # look-up table, so one chord can be 3 units long; a straight result edge that IS (part of) such a chord -- both ends on one input
+                        # outline, no longer than 3.2 -- bulges L^2/(8r) from a curve of radius r, which exceeds 0.1 only for 10 <= r < 12.8.  Decided from
+                        # the edge's ends, its length and the inputs' curvature; anything farther away than the sagitta is still C13-distance.
+                        L = math.hypot(sp[1][0] - sp[0][0], sp[1][1] - sp[0][1])
+                        on_a = oa.within(sp[0], 0.026) and oa.within(sp[1], 0.026)
+                        on_b = ob.within(sp[0], 0.026) and ob.within(sp[1], 0.026)
+                        if L <= 3.2 and (on_a or on_b) and d <= 1.05 * L * L / (8 * rc) + 0.01: cls = SAGITTA_CLASS
+                    fails.append((cls, f'{op}: point {q} of segment {i} ({type(s).__name__}) of result path {k} is {d:.4f} from the nearest input '
                                   f'outline (limit {lim - 0.006:.1f}; min radius of curvature {rc:.3g})'))
                     break
     if before != (cg.deep_repr(A), cg.deep_repr(B)): fails.append(('C13-modified', 'an input path changed (deep repr of closed flag, kinds, control points)'))
@@ -571,9 +582,11 @@ def search(ctx):
         agg['max_dist_to_outline'] = max(agg['max_dist_to_outline'], meas['max_dist'])
         agg['curved_result_segments'] += meas['curved_segments']; agg['straight_result_segments'] += meas['straight_segments']
         if len(samples) < 2: samples.append({'A': cg.path_json(A), 'B': cg.path_json(B), 'meta': m, 'measured': meas})
-        if f:
-            fails.append({'class': f[0][0], 'what': f[0][1], 'input': {'A': cg.path_json(A), 'B': cg.path_json(B), 'meta': m, 'seed2': seed2, 'sentence': 1},
-                          'observed': [x[1] for x in f][:6], 'expected': 'C13 first sentence (provenance, distance, inputs unmodified, empty intersection)'})
+        # one failure record per class seen for this pair (the unlisted classes first)
+        for cls in sorted({c for c, _ in f}, key=lambda c: c == SAGITTA_CLASS):
+            msgs = [x[1] for x in f if x[0] == cls]
+            fails.append({'class': cls, 'what': msgs[0], 'input': {'A': cg.path_json(A), 'B': cg.path_json(B), 'meta': m, 'seed2': seed2, 'sentence': 1},
+                          'observed': msgs[:6], 'expected': 'C13 first sentence (provenance, distance, inputs unmodified, empty intersection)'})
     # second sentence
     pairs2 = [(cg.Circle(50, origin=P(0, 0)), cg.Circle(50, origin=P(41, 0)), {'kinds': ['circle', 'circle'], 'config': 'transversal-D17'}),
               (cg.Rectangle(100, 100, origin=P(0, 0)), cg.Rectangle(100, 100, origin=P(50, 50)), {'kinds': ['rect', 'rect'], 'config': 'transversal-squares'})]
